@@ -363,23 +363,23 @@ func imageTags(m *fsmodel.FS) []string {
 // ---- the analysis of one case ----
 
 type crashOutcome struct {
-	vs         []dbViolation
-	boundaries int
-	recoveries int
-	nested     int
-	steps      int
-	simTime    time.Duration
-	pickHash   uint64
+	vs          []dbViolation
+	boundaries  int
+	recoveries  int
+	nested      int
+	steps       int
+	simTime     time.Duration
+	pickHash    uint64
 	imageHashes []string
-	tagCounts  map[string]int
-	sessionBad bool
+	tagCounts   map[string]int
+	sessionBad  bool
 }
 
 type crashPlan struct {
-	mode     string
-	thorough bool
-	all      bool // evaluate every boundary (else structural + sample)
-	count    bool
+	mode         string
+	thorough     bool
+	all          bool // evaluate every boundary (else structural + sample)
+	count        bool
 	onlyBoundary int // >0: evaluate only this boundary (replay of a minimised case keeps all)
 }
 
